@@ -251,25 +251,37 @@ def _check_duration_definition(prog: Program, res: Result):
     defs = {s_.targets[0].id: s_.value for s_ in ast.walk(fi.node) if isinstance(s_, ast.Assign) and len(s_.targets) == 1 and isinstance(s_.targets[0], ast.Name)}
     sims = {k: v for k, v in defs.items() if isinstance(v, ast.Call) and attr_chain(v.func) == "self.simulate_hourly"}
     sh = prog.func(f"{CLS}.simulate_hourly")
+    def rs(node):
+        """source of an argument, locals resolved one step through their (single) definition"""
+        if isinstance(node, ast.Name) and node.id in defs:
+            return ast.unparse(defs[node.id]).replace(" ", "")
+        return ast.unparse(node).replace(" ", "") if node is not None else None
+
     by_load = {}
+    profile_param = fi.params()[1] if len(fi.params()) > 1 else None  # self, two_day_hourly_peak_load, ...
     for k, v in sims.items():
         b = bind_args(sh, v)
-        by_load[ast.unparse(b.get("q"))] = (k, b)
-    ok = set(by_load) == {"q_peak", "q_nominal"}
+        qa = b.get("q")
+        qd = defs.get(qa.id) if isinstance(qa, ast.Name) else qa
+        uses_profile = qd is not None and any(isinstance(x, ast.Name) and x.id == profile_param for x in ast.walk(qd))
+        by_load["q_nominal" if uses_profile else "q_peak"] = (k, b)
+    ok = set(by_load) == {"q_peak", "q_nominal"} and len(sims) == 2
     if not ok:
-        raise AnalysisError(f"{q}: the two hourly simulations (q_peak, q_nominal) not found")
+        raise AnalysisError(f"{q}: the two hourly simulations (constant peak-step load, profile-shaped nominal load) not found")
     pk_name, nom_name = by_load["q_peak"][0], by_load["q_nominal"][0]
-    same_args = all(ast.unparse(by_load["q_peak"][1].get(a)) == ast.unparse(by_load["q_nominal"][1].get(a)) for a in ("hour_time", "g_sts", "resist_bh", "two_pi_k", "ts"))
+    same_args = all(rs(by_load["q_peak"][1].get(a)) == rs(by_load["q_nominal"][1].get(a)) for a in ("hour_time", "g_sts", "resist_bh", "two_pi_k", "ts"))
     res.ob("R07.8", "peak-step and nominal two-day responses are simulated with the same time axis, g-function, resistance and soil", same_args, prog.loc(fi, fi.node))
     if not same_args:
         res.violation("R07.8", "responses-different-models", prog.loc(fi, fi.node), q, "the peak-step and the nominal two-day responses are simulated with different parameters")
     bq = by_load["q_peak"][1]
-    okm = ast.unparse(bq.get("g_sts")) == "g_sts" and ast.unparse(defs.get("g_sts")) == "self.radial_numerical.g_sts" and ast.unparse(defs.get("ts")) == "self.radial_numerical.t_s" \
-        and ast.unparse(defs.get("resist_bh_effective")) == "self.bhe.calc_effective_borehole_resistance()" and ast.unparse(defs.get("two_pi_k")).replace(" ", "") == "TWO_PI*self.bhe.soil.k"
+    okm = rs(bq.get("g_sts")) == "self.radial_numerical.g_sts" and rs(bq.get("ts")) == "self.radial_numerical.t_s" \
+        and rs(bq.get("resist_bh")) == "self.bhe.calc_effective_borehole_resistance()" and rs(bq.get("two_pi_k")) in ("TWO_PI*self.bhe.soil.k", "self.bhe.soil.k*TWO_PI")
     res.ob("R07.8", "they use the short-time g-function and t_s of the radial model, Rb* of the borehole and 2 pi k_soil", okm, prog.loc(fi, fi.node))
     if not okm:
         res.violation("R07.8", "response-parameters", prog.loc(fi, fi.node), q, "the two-day responses no longer use radial_numerical.g_sts / t_s, the effective borehole resistance and 2 pi k_soil")
-    ht = defs.get("hour_time")
+    ht_arg = bq.get("hour_time")
+    ht_name = ht_arg.id if isinstance(ht_arg, ast.Name) else None
+    ht = defs.get(ht_name) if ht_name else ht_arg
     okh = ht is not None and ast.unparse(ht).replace(" ", "") in ("np.array(range(2*HRS_IN_DAY+1))", "np.arange(2*HRS_IN_DAY+1)", "np.arange(0,2*HRS_IN_DAY+1)")
     res.ob("R07.8", f"the time axis is 0..48 h in hourly steps ({ast.unparse(ht) if ht is not None else '?'})", okh, prog.loc(fi, fi.node))
     if not okh:
@@ -279,7 +291,7 @@ def _check_duration_definition(prog: Program, res: Result):
     okd = False
     if len(itp) == 1:
         v = defs[itp[0]]
-        okx = len(v.args) >= 2 and ast.unparse(v.args[0]) == pk_name and ast.unparse(v.args[1]) == "hour_time"
+        okx = len(v.args) >= 2 and ast.unparse(v.args[0]) == pk_name and ht_name is not None and ast.unparse(v.args[1]) == ht_name
         mx = next((k for k, d in defs.items() if isinstance(d, ast.Call) and attr_chain(d.func) == "max" and len(d.args) == 1 and ast.unparse(d.args[0]) == nom_name), None)
         use = [n for n in ast.walk(fi.node) if isinstance(n, ast.Call) and isinstance(n.func, ast.Name) and n.func.id == itp[0] and len(n.args) == 1 and mx is not None and ast.unparse(n.args[0]) == mx]
         grd = [n for n in ast.walk(fi.node) if isinstance(n, ast.If) and use and any(use[0] is x for b_ in n.body for x in ast.walk(b_))]
